@@ -300,14 +300,14 @@ def io_cases(seed, n, kinds=None):
     """(hist, op, auto, kind) : a history that builds some contents, then one operation of a chosen kind"""
     out = []
     kinds = kinds or ["insert", "insert_multiple", "remove_some", "remove_none", "remove_all_match", "update_some", "update_nochange",
-                      "drop", "remove_all", "handle_update", "read", "insert_multiple_bad", "update_raises", "update_shrink", "remove_most"]
+                      "drop", "remove_all", "handle_update", "read", "insert_multiple_bad", "update_raises", "update_shrink", "remove_most", "insert_big_rows"]
     for i in range(n):
         g = dbgen.Gen((seed << 16) + i, {"p_selective": 1.0, "allow_raise": False})
         r = g.r
         auto = r.random() < 0.7
         g.ids = 1
         n0 = r.choice([1, 2, 3, 5, 8])
-        if kinds[i % len(kinds)] in ("update_shrink", "remove_most"):
+        if kinds[i % len(kinds)] in ("update_shrink", "remove_most", "remove_some"):
             auto, n0 = True, max(n0, 3)          # the index must answer the query: storage-level shortcuts hang off that path
         pts = g.points_batch(n0, in_order=r.random() < 0.7)
         hist = [("insert", pts, None, "multiple")]
@@ -329,12 +329,22 @@ def io_cases(seed, n, kinds=None):
             op = ("insert", [g.point()], r.choice([None, "m1"]))
         elif kind == "insert_multiple":
             op = ("insert", [g.point() for _ in range(r.choice([2, 3]))], None, "multiple")
+        elif kind == "insert_big_rows":
+            # a batch whose text is well over 64 KiB in a handful of rows: whatever is written in blocks must still end on row boundaries
+            ps = []
+            for b in range(r.choice([7, 9])):
+                q = g.point()
+                q["tags"]["blob"] = "".join(r.choice("abcdefghij,\"") for _ in range(50)) * 220
+                ps.append(q)
+            op = ("insert", ps, None, "multiple")
         elif kind == "insert_multiple_bad":
             ps = [g.point() for _ in range(3)]
             ps.insert(r.randrange(1, 4), None)
             op = ("insert", ps, None, "multiple")
         elif kind == "remove_some":
-            op = ("remove", ("or", one, ("S", "fields", [("k", "n")], ("cmp", ">", ("n", max(2, g.ids - 2))))), None)
+            # an early row AND the last stored rows (of the first batch): a removal in two regions of the file
+            op = ("remove", ("or", ("S", "tags", [("k", "id")], ("cmp", "==", ("s", str(ns[0] if ns else 1)))),
+                             ("S", "fields", [("k", "n")], ("cmp", ">=", ("n", ns[-2] if len(ns) >= 3 else (ns[-1] if ns else 1))))), None)
         elif kind == "remove_none":
             op = ("remove", ("S", "tags", [("k", "id")], ("cmp", "==", ("s", "nope"))), None)
         elif kind == "remove_all_match":
